@@ -71,7 +71,7 @@ def size(c):
 def params(chk):
     if chk.tier == "quick":
         return dict(seqlen=6, faultlen=3, nsample=300, schedbits=6)
-    return dict(seqlen=8, faultlen=5, nsample=6000, schedbits=9)
+    return dict(seqlen=9, faultlen=5, nsample=20000, schedbits=8)
 
 
 def run(chk, replay_case=None):
